@@ -370,3 +370,7 @@ func fieldByTypeV(s reflect.Value, t reflect.Type, depth int) unsafe.Pointer {
 	}
 	return nil
 }
+
+// genWideText: multi-byte text whose byte length is well above its character count (byte-indexed
+// truncation and column logic go wrong on such strings).
+var wideTexts = []string{"設定ファイルを圧縮して保存するコマンドです", "архивировать каталог с файлами журнала", "größenänderungsübersichtsprüfung äöü ßßß", "ファイル検索", "каталог"}
